@@ -153,6 +153,9 @@ def h_func(ctx, m, n, d, zero_lamb=False):
         ctx.claim('coeff_count', len(cfs[k + 1]) == n - 1)
     cores = A.cores(e=None)
     ctx.claim('well_formed', well_formed(cores, [n] * d))
+    # the one-call wrapper: same regularisation, same (absent) rounding
+    cw = teneva.anova_func(X, y, n, -1., 1., lamb, None)
+    ctx.claim('wrapper_equals_class', well_formed(cw, [n] * d) and bool(ctx.all_eq(ref_full(cw), ref_full(cores))))
     xq = vec(ctx, 'q', d)
     for v in xq:
         ctx.assume(ctx.ge(v, -1))
